@@ -245,10 +245,16 @@ async def drive_ap2(history):
 
     listener = L()
     sp = StateProducer()
-    sp.listener = listener
     session = AP2Session("127.0.0.1", 7000, NO_CREDENTIALS, InfoSettings())
     session.rtsp = Rtsp()
+    # the order of real use: pyatv.connect() starts the keep-alive, the application assigns its
+    # device listener to the returned object afterwards (every other history assigns it first)
+    late = len(history) % 2 == 1
+    if not late:
+        sp.listener = listener
     session.start_keep_alive(sp)
+    if late:
+        sp.listener = listener
     task = session._feedback_task
     await asyncio.sleep(0)
     for ev in history:
@@ -318,7 +324,6 @@ async def drive_ap2_deep(history, encrypted=False):
 
     listener = L()
     sp = StateProducer()
-    sp.listener = listener
     conn = HttpConnection()
     conn.transport = Tr()
     conn._local_ip = conn._remote_ip = "127.0.0.1"
@@ -326,6 +331,7 @@ async def drive_ap2_deep(history, encrypted=False):
     session.connection = conn
     session.rtsp = RtspSession(conn)
     session.start_keep_alive(sp)
+    sp.listener = listener       # assigned after connect, as applications do
     cut = 11
     dev = None
     if encrypted:
@@ -512,12 +518,16 @@ async def drive_mrp_deep(history, drop=None, encrypted=False):
             if dev is None:
                 proto.message_received(resp, None)
             else:
+                pre = b""
                 if ev == "x":
                     junk = bytearray(dev.encrypt(messages.create(protobuf.GENERIC_MESSAGE).SerializeToString()))
                     junk[len(junk) // 2] ^= 0x40
-                    conn.data_received(write_variant(len(junk)) + bytes(junk))
+                    pre = write_variant(len(junk)) + bytes(junk)
+                    if seen % 2 == 0:
+                        conn.data_received(pre)      # in a read of its own ...
+                        pre = b""
                 enc = dev.encrypt(resp.SerializeToString())
-                conn.data_received(write_variant(len(enc)) + enc)
+                conn.data_received(pre + write_variant(len(enc)) + enc)     # ... or in the same read as the answer
             await asyncio.sleep(0)
         else:
             await asyncio.sleep(5.5)
